@@ -558,6 +558,7 @@ func c12Case(c *core.Ctx, idx int) {
 	p := instNew(protoCfg)
 	tc := &tcase{cfg: protoCfg, name: "protoArrays+protoTime", p: p, typ: typ}
 	// long-lived instances (see sharedInst): default and proto mode, with the codecs of earlier cases
+	sharedTick(c, idx)
 	longProto := sharedInst(&tcase{cfg: protoCfg, name: "c12-proto"})
 	defCfg := cfgs[0]
 	defCfg.Null, defCfg.JSONAny = false, false
